@@ -104,11 +104,11 @@ theorem C07_bmp_counterexample : ¬ C07_bmp_full asWritten := by
   intro hfull
   let toks : Nat → Tok := fun i => if i = 0 then .init else .up 1 1
   let s : Src := ([3, 0, 0, 0, 6, 4, 3, 0, 0, 0, 6, 3, 3, 0, 0, 0, 0] : List Nat).map Item.byte
-  have h := @hfull PState (peerHandler toks)
+  have h := @hfull PState (peerHandler false toks)
     (by intro st i bs; exact pstep_no_eos st (toks i))
     (by intro st i bs; simp [peerHandler])
     PState.children 2 (fun _ _ => .accept) (by intro i bs; decide) s (PState.init 3) (by unfold Ended; decide)
-  have : (run asWritten (peerHandler toks) PState.children 2 (fun _ _ => .accept) s (PState.init 3)).inList = true := by decide
+  have : (run asWritten (peerHandler false toks) PState.children 2 (fun _ _ => .accept) s (PState.init 3)).inList = true := by decide
   rw [h.2] at this
   cases this
 
@@ -119,17 +119,17 @@ theorem C07_bmp_counterexample : ¬ C07_bmp_full asWritten := by
     for every script and classification. -/
 theorem C07_up_peers_covered (v : Variant) (toks : Nat → Tok) (router : Nat)
     (valid : Nat → List Nat → Verdict) (s : Src) (next : Nat) :
-    let r := run v (peerHandler toks) PState.children router valid s (PState.init next)
+    let r := run v (peerHandler false toks) PState.children router valid s (PState.init next)
     ∀ id ∈ r.st.upIds, id ∈ r.st.children := by
   intro r id hid
   have hinv : PInv r.st := by
-    have := loop_inv v (peerHandler toks) valid PInv
+    have := loop_inv v (peerHandler false toks) valid PInv
       (by intro st i bs hst; exact pstep_inv st (toks i) hst) (s.length + 1) s (PState.init next) 0
       (by intro e he; simp [PState.init] at he)
-    have hr : r.st = (runLoop v (peerHandler toks) valid s (PState.init next)).st := by
-      show (run v (peerHandler toks) PState.children router valid s (PState.init next)).st = _
+    have hr : r.st = (runLoop v (peerHandler false toks) valid s (PState.init next)).st := by
+      show (run v (peerHandler false toks) PState.children router valid s (PState.init next)).st = _
       unfold run
-      generalize runLoop v (peerHandler toks) valid s (PState.init next) = l
+      generalize runLoop v (peerHandler false toks) valid s (PState.init next) = l
       obtain ⟨evs, st', fin, rest, frames⟩ := l
       cases fin <;> rfl
     rw [hr]; exact this
@@ -152,19 +152,34 @@ theorem C07_children_only_grow (st : PState) (t : Tok) (hst : PInv st) :
     the router stays in the router list. Kernel-checked instance: Initiation, Peer Up, Termination,
     then silence. -/
 theorem C07_termination_does_not_end_session :
-    (∀ toks st i bs, ((peerHandler toks).step st i bs).2.2 = .cont) ∧
+    (∀ toks st i bs, ((peerHandler false toks).step st i bs).2.2 = .cont) ∧
     (let toks : Nat → Tok := fun i => if i = 0 then .init else if i = 1 then .up 1 1 else .term
      let s : Src := ([3, 0, 0, 0, 6, 4, 3, 0, 0, 0, 6, 3, 3, 0, 0, 0, 6, 5] : List Nat).map Item.byte ++ [.idle]
-     let r := run repaired (peerHandler toks) PState.children 2 (fun _ _ => .accept) s (PState.init 3)
+     let r := run repaired (peerHandler false toks) PState.children 2 (fun _ _ => .accept) s (PState.init 3)
      r.fin = .waiting ∧ r.inList = true ∧ r.outs = [.withdrawBulk [3]]) :=
   ⟨fun _ _ _ _ => rfl, by decide⟩
 
-/-- …whereas Termination followed by the router closing the connection is cleaned up like any
-    other end (an instance of `C07_bmp_repaired`, shown concretely). -/
+/-- With the proposed repair (leave the loop once the state machine is `Terminated`) the same
+    input is cleaned up at once, silent connection or not. -/
+theorem C07_termination_repaired :
+    let toks : Nat → Tok := fun i => if i = 0 then .init else if i = 1 then .up 1 1 else .term
+    let s : Src := ([3, 0, 0, 0, 6, 4, 3, 0, 0, 0, 6, 3, 3, 0, 0, 0, 6, 5] : List Nat).map Item.byte ++ [.idle]
+    let r := run repaired (peerHandler true toks) PState.children 2 (fun _ _ => .accept) s (PState.init 3)
+    r.fin = .aborted ∧ r.inList = false ∧ r.outs = [.withdrawBulk [3], .withdrawBulk [3], .endOfStream 2] := by
+  decide
+
+/-- In general: the repaired handler breaks the loop exactly when the machine becomes `Terminated`. -/
+theorem C07_termination_repaired_aborts (toks : Nat → Tok) (st : PState) (i : Nat) (bs : List Nat) :
+    ((peerHandler true toks).step st i bs).2.2 = .abort ↔ (pstep st (toks i)).1.phase = .terminated := by
+  simp only [peerHandler, Bool.true_and]
+  cases (pstep st (toks i)).1.phase <;> simp
+
+/-- …whereas (as written) Termination followed by the router closing the connection is cleaned
+    up like any other end (an instance of `C07_bmp_repaired`, shown concretely). -/
 example :
     let toks : Nat → Tok := fun i => if i = 0 then .init else if i = 1 then .up 1 1 else .term
     let s : Src := ([3, 0, 0, 0, 6, 4, 3, 0, 0, 0, 6, 3, 3, 0, 0, 0, 6, 5] : List Nat).map Item.byte
-    let r := run repaired (peerHandler toks) PState.children 2 (fun _ _ => .accept) s (PState.init 3)
+    let r := run repaired (peerHandler false toks) PState.children 2 (fun _ _ => .accept) s (PState.init 3)
     r.inList = false ∧ r.outs = [.withdrawBulk [3], .withdrawBulk [3], .endOfStream 2] := by decide
 
 /-! ## BGP (`bgp_tcp_in/router_handler.rs`) -/
@@ -211,11 +226,11 @@ example : (bgpRun 7 [.connectionLost]).outs = [] ∧ (bgpRun 7 [.connectionLost]
 example :
     let toks : Nat → Tok := fun i => if i = 0 then .init else .up i i
     let s : Src := ([3, 0, 0, 0, 6, 4, 3, 0, 0, 0, 6, 3, 3, 0, 0, 0, 6, 3, 3, 0, 0] : List Nat).map Item.byte ++ [.fault .connectionReset]
-    let r := run repaired (peerHandler toks) PState.children 2 (fun _ _ => .accept) s (PState.init 3)
+    let r := run repaired (peerHandler false toks) PState.children 2 (fun _ _ => .accept) s (PState.init 3)
     r.fin = .fatal .connectionReset ∧ r.inList = false ∧ r.outs = [.withdrawBulk [3, 4], .endOfStream 2] := by decide
 
 /-- `Ended` excludes something real (a silent open connection is not an end). -/
-example : ¬ Ended (run repaired (peerHandler (fun _ => .init)) PState.children 2 (fun _ _ => .accept) [.idle] (PState.init 3)) := by
+example : ¬ Ended (run repaired (peerHandler false (fun _ => .init)) PState.children 2 (fun _ _ => .accept) [.idle] (PState.init 3)) := by
   intro h; exact h (by decide)
 
 end Rotonda.BmpSession
